@@ -72,6 +72,13 @@ cplx g_expect;                    /* = vertex_uf(slot_triple(ghost)) (calls are 
 #define G_N1 SP_N1(g_N, g_V, g_nu)
 #define G_N2 SP_N2(g_N, g_V, g_nu)
 #define G_N3 SP_N3(g_N, g_V, g_nup)
+/* the spec quantities of the ghost slot, evaluated ONCE (pre-condition GHOST_CONSTS) and then used in the
+ * monitor and the loop invariants: re-evaluating the min/max expressions at every use costs minutes */
+_Bool g_ok, g_vok;                /* = GHOST_VALID, = SLOT_V_VALID(g_N, g_V) */
+long g_lo, g_sz;                  /* = lo and size of the ghost slice */
+long g_n1, g_n2, g_n3;            /* = slot_triple(ghost) */
+#define GHOST_CONSTS (g_vok == SLOT_V_VALID(g_N, g_V) && g_ok == GHOST_VALID && g_lo == SP_LO(g_N, SP_OMEGA(g_N, g_V)) && \
+                      g_sz == SP_SIZE(g_N, SP_OMEGA(g_N, g_V)) && g_n1 == G_N1 && g_n2 == G_N2 && g_n3 == G_N3)
 
 /* the value of the source object: an opaque function of the triple */
 double __CPROVER_uninterpreted_vtx_re(long, long, long);
@@ -87,7 +94,7 @@ cplx Vertex4_value_mon(struct Vertex4 *src, long n1, long n2, long n3)
 #ifdef MON_FILL
   /* soundness of fill: only triples of the window are precomputed */
   __CPROVER_assert(IN_WINDOW(g_N, n1, n2, n3), "C15: fill evaluates the source only at triples of the window");
-  if (GHOST_VALID && n1 == G_N1 && n2 == G_N2 && n3 == G_N3) { g_hits++; REACH("fill_hit"); }
+  if (g_ok && n1 == g_n1 && n2 == g_n2 && n3 == g_n3) { g_hits++; REACH("fill_hit"); }
 #else
   g_calls++; g_a1 = n1; g_a2 = n2; g_a3 = n3;    /* lookup: number and arguments of the evaluations */
 #endif
@@ -99,7 +106,7 @@ cplx Vertex4_value_mon(struct Vertex4 *src, long n1, long n2, long n3)
 #define VALS (&self->Values)
 #define OFFS (&self->FermionicIndexOffset)
 #define HITCELL (g_hits == 1 && C_SAMEBITS(self->Values.g.gcell, g_expect))
-#define HIT_INV(passed) ((GHOST_VALID && (passed)) ? HITCELL : g_hits == 0)
+#define HIT_INV(passed) ((g_ok && (passed)) ? HITCELL : g_hits == 0)
 //@function Pomerol::MatsubaraContainer4<Pomerol::Vertex4>::fill(Pomerol::Vertex4 const*, long) as MC4_fill
 //@contract
 __CPROVER_requires(__CPROVER_is_fresh(self, sizeof(*self)))
@@ -110,7 +117,8 @@ __CPROVER_requires(-1 <= self->Values.cur && self->Values.cur < self->Values.siz
 /* ghost slot: arbitrary inside a box that contains every valid slot */
 __CPROVER_requires(GBOX(g_V) && GBOX(g_nu) && GBOX(g_nup))
 __CPROVER_requires(self->Values.gidx == g_V && self->FermionicIndexOffset.gidx == g_V && self->Values.g.gi == g_nu && self->Values.g.gj == g_nup)
-__CPROVER_requires(g_hits == 0 && C_SAME(g_expect, vertex_uf(G_N1, G_N2, G_N3)))
+__CPROVER_requires(GHOST_CONSTS)
+__CPROVER_requires(g_hits == 0 && C_SAME(g_expect, vertex_uf(g_n1, g_n2, g_n3)))
 __CPROVER_assigns(self->NumberOfMatsubaras, self->pSource, self->Values, self->FermionicIndexOffset, g_hits)
 __CPROVER_ensures(self->NumberOfMatsubaras == NumberOfMatsubaras && self->pSource == pSource)
 /* one slice per bosonic frequency with a non-empty window */
@@ -127,24 +135,23 @@ __CPROVER_assigns(BosonicIndexV, g_hits,
                   self->FermionicIndexOffset.gval, self->FermionicIndexOffset.cur, self->FermionicIndexOffset.curval)
 __CPROVER_loop_invariant(0 <= BosonicIndexV && BosonicIndexV <= 4 * NumberOfMatsubaras - 1)
 __CPROVER_loop_invariant(HIT_INV(BosonicIndexV > g_V))
-__CPROVER_loop_invariant((SLOT_V_VALID(g_N, g_V) && BosonicIndexV > g_V) ==> (self->FermionicIndexOffset.gval == SP_LO(g_N, SP_OMEGA(g_N, g_V)) &&
-                  self->Values.g.rows == SP_SIZE(g_N, SP_OMEGA(g_N, g_V)) && self->Values.g.cols == SP_SIZE(g_N, SP_OMEGA(g_N, g_V))))
+__CPROVER_loop_invariant((g_vok && BosonicIndexV > g_V) ==> (self->FermionicIndexOffset.gval == g_lo && self->Values.g.rows == g_sz && self->Values.g.cols == g_sz))
 __CPROVER_decreases(4 * NumberOfMatsubaras - 1 - BosonicIndexV)
 //@loop 2
 __CPROVER_assigns(NuIndexM, g_hits,
-                  self->Values.g.gcell, self->Values.g.other, self->Values.curm.other)
+                  self->Values.g.gcell, self->Values.g.other, self->Values.curm.gcell, self->Values.curm.other)
 __CPROVER_loop_invariant(0 <= NuIndexM && NuIndexM <= FermionicMatrixSize)
 __CPROVER_loop_invariant(HIT_INV(BosonicIndexV > g_V || (BosonicIndexV == g_V && NuIndexM > g_nu)))
 __CPROVER_decreases(FermionicMatrixSize - NuIndexM)
 //@loop 3
 __CPROVER_assigns(NupIndexM, g_hits,
-                  self->Values.g.gcell, self->Values.g.other, self->Values.curm.other)
+                  self->Values.g.gcell, self->Values.g.other, self->Values.curm.gcell, self->Values.curm.other)
 __CPROVER_loop_invariant(0 <= NupIndexM && NupIndexM <= FermionicMatrixSize)
 __CPROVER_loop_invariant(HIT_INV(BosonicIndexV > g_V || (BosonicIndexV == g_V && (NuIndexM > g_nu || (NuIndexM == g_nu && NupIndexM > g_nup)))))
 __CPROVER_decreases(FermionicMatrixSize - NupIndexM)
 //@end
 
-//@harness h_MC4_fill enforce=MC4_fill props=C15,C17 min_obl=100 reach=3 timeout=600 defs=-DMON_FILL
+//@harness h_MC4_fill enforce=MC4_fill props=C15 min_obl=1650 reach=3 timeout=900 defs=-DMON_FILL
 void h_MC4_fill(void)
 {
   struct MC4 *c; struct Vertex4 *src; long N;
@@ -188,7 +195,7 @@ __CPROVER_ensures(!IN_WINDOW(g_N, n1_, n2_, n3_) ==> (g_calls == 1 && g_a1 == n1
 __CPROVER_ensures((GHOST_IS(n1_, n2_, n3_) || !IN_WINDOW(g_N, n1_, n2_, n3_)) ==> C_SAME(__CPROVER_return_value, vertex_uf(n1_, n2_, n3_)))
 //@end
 
-//@harness h_MC4_call enforce=MC4_call props=C15,C17 min_obl=100 reach=4 timeout=300
+//@harness h_MC4_call enforce=MC4_call props=C15 min_obl=670 reach=5 timeout=300
 void h_MC4_call(void)
 {
   struct MC4 *c; long n1, n2, n3;
@@ -231,11 +238,11 @@ static void mc4_index_lemma(int which)
     REACH("size");
   }
 }
-//@harness h_MC4_lemma_L1 enforce=none props=C15 min_obl=10 reach=1 timeout=200 loops=0
+//@harness h_MC4_lemma_L1 enforce=none props=C15 min_obl=900 reach=1 timeout=200 loops=0
 void h_MC4_lemma_L1(void) { mc4_index_lemma(1); }
-//@harness h_MC4_lemma_L2 enforce=none props=C15 min_obl=10 reach=1 timeout=200 loops=0
+//@harness h_MC4_lemma_L2 enforce=none props=C15 min_obl=900 reach=1 timeout=200 loops=0
 void h_MC4_lemma_L2(void) { mc4_index_lemma(2); }
-//@harness h_MC4_lemma_L3 enforce=none props=C15 min_obl=10 reach=2 timeout=200 loops=0
+//@harness h_MC4_lemma_L3 enforce=none props=C15 min_obl=900 reach=2 timeout=200 loops=0
 void h_MC4_lemma_L3(void) { mc4_index_lemma(3); }
 
 /* ======================= Vertex4::value =======================
@@ -252,15 +259,19 @@ double __CPROVER_uninterpreted_chi_re(long, long, long, long);
 double __CPROVER_uninterpreted_chi_im(long, long, long, long);
 double __CPROVER_uninterpreted_gf_re(long, long);
 double __CPROVER_uninterpreted_gf_im(long, long);
-cplx TwoParticleGF_call(struct TwoParticleGF *x, long n1, long n2, long n3)
-{ cplx c = {__CPROVER_uninterpreted_chi_re(x->id, n1, n2, n3), __CPROVER_uninterpreted_chi_im(x->id, n1, n2, n3)}; REACH("chi"); return c; }
-cplx GreensFunction_call(struct GreensFunction *g, long n)
-{ cplx c = {__CPROVER_uninterpreted_gf_re(g->id, n), __CPROVER_uninterpreted_gf_im(g->id, n)}; REACH("gf"); return c; }
-static cplx spec_vertex(struct Vertex4 *v, long n1, long n2, long n3)
+static inline cplx chi_uf(long id, long n1, long n2, long n3)
+{ cplx c = {__CPROVER_uninterpreted_chi_re(id, n1, n2, n3), __CPROVER_uninterpreted_chi_im(id, n1, n2, n3)}; return c; }
+static inline cplx gf_uf(long id, long n)
+{ cplx c = {__CPROVER_uninterpreted_gf_re(id, n), __CPROVER_uninterpreted_gf_im(id, n)}; return c; }
+/* monitors of the calls made by the code (pure value + reachability marker) */
+cplx TwoParticleGF_call(struct TwoParticleGF *x, long n1, long n2, long n3) { REACH("chi"); return chi_uf(x->id, n1, n2, n3); }
+cplx GreensFunction_call(struct GreensFunction *g, long n) { REACH("gf"); return gf_uf(g->id, n); }
+/* the documented expression (pure; operands in the order of the documentation) */
+static cplx spec_vertex(double beta, long chi, long g13, long g24, long g14, long g23, long n1, long n2, long n3)
 {
-  cplx r = TwoParticleGF_call(&v->Chi4, n1, n2, n3);
-  if (n1 == n3) r = op_add_cplx_cplx(r, op_mul_cplx_cplx(op_mul_double_cplx(v->beta, GreensFunction_call(&v->G13, n1)), GreensFunction_call(&v->G24, n2)));
-  if (n2 == n3) r = op_sub_cplx_cplx(r, op_mul_cplx_cplx(op_mul_double_cplx(v->beta, GreensFunction_call(&v->G14, n1)), GreensFunction_call(&v->G23, n2)));
+  cplx r = chi_uf(chi, n1, n2, n3);
+  if (n1 == n3) r = op_add_cplx_cplx(r, op_mul_cplx_cplx(op_mul_double_cplx(beta, gf_uf(g13, n1)), gf_uf(g24, n2)));
+  if (n2 == n3) r = op_sub_cplx_cplx(r, op_mul_cplx_cplx(op_mul_double_cplx(beta, gf_uf(g14, n1)), gf_uf(g23, n2)));
   return r;
 }
 /* (a function, not the macro C_SAME: the macro would evaluate the spec expression twice, and every further
@@ -270,10 +281,11 @@ static _Bool c_same(cplx a, cplx b) { return C_SAME(a, b); }
 //@contract
 __CPROVER_requires(__CPROVER_is_fresh(self, sizeof(*self)))
 __CPROVER_assigns()
-__CPROVER_ensures(c_same(__CPROVER_return_value, spec_vertex(self, MatsubaraNumber1, MatsubaraNumber2, MatsubaraNumber3)))
+__CPROVER_ensures(c_same(__CPROVER_return_value, spec_vertex(self->beta, self->Chi4.id, self->G13.id, self->G24.id, self->G14.id, self->G23.id,
+                                                            MatsubaraNumber1, MatsubaraNumber2, MatsubaraNumber3)))
 //@end
 
-//@harness h_Vertex4_value enforce=Vertex4_value props=C15 min_obl=10 reach=3 timeout=120
+//@harness h_Vertex4_value enforce=Vertex4_value props=C15 min_obl=135 reach=3 timeout=120
 void h_Vertex4_value(void)
 {
   struct Vertex4 *v; long n1, n2, n3;
@@ -298,7 +310,7 @@ __CPROVER_assigns(g_calls, g_a1, g_a2, g_a3, self->Storage.Values.cur, self->Sto
 __CPROVER_ensures((GHOST_IS(n1_, n2_, n3_) || !IN_WINDOW(g_N, n1_, n2_, n3_)) ==> C_SAME(__CPROVER_return_value, vertex_uf(n1_, n2_, n3_)))
 __CPROVER_ensures(IN_WINDOW(g_N, n1_, n2_, n3_) == (g_calls == 0))
 //@end
-//@harness h_Vertex4_call enforce=Vertex4_call replace=MC4_call props=C15 min_obl=10 reach=1 timeout=120
+//@harness h_Vertex4_call enforce=Vertex4_call replace=MC4_call props=C15 min_obl=760 reach=1 timeout=120
 void h_Vertex4_call(void)
 {
   struct Vertex4 *v; long n1, n2, n3;
@@ -314,14 +326,15 @@ __CPROVER_requires(0 <= self->Storage.Values.size && self->Storage.Values.size <
 __CPROVER_requires(-1 <= self->Storage.Values.cur && self->Storage.Values.cur < self->Storage.Values.size && -1 <= self->Storage.FermionicIndexOffset.cur && self->Storage.FermionicIndexOffset.cur < self->Storage.FermionicIndexOffset.size)
 __CPROVER_requires(GBOX(g_V) && GBOX(g_nu) && GBOX(g_nup))
 __CPROVER_requires(self->Storage.Values.gidx == g_V && self->Storage.FermionicIndexOffset.gidx == g_V && self->Storage.Values.g.gi == g_nu && self->Storage.Values.g.gj == g_nup)
-__CPROVER_requires(g_hits == 0 && C_SAME(g_expect, vertex_uf(G_N1, G_N2, G_N3)))
+__CPROVER_requires(GHOST_CONSTS)
+__CPROVER_requires(g_hits == 0 && C_SAME(g_expect, vertex_uf(g_n1, g_n2, g_n3)))
 __CPROVER_assigns(self->Storage, self->Status, g_hits)
 /* the storage is filled from this very object, satisfies the class invariant of the lookup, and the vertex is Computed */
 __CPROVER_ensures(self->Storage.pSource == self && self->Storage.NumberOfMatsubaras == NumberOfMatsubaras && self->Status == Computed)
 __CPROVER_ensures(CINV_SIZES(&self->Storage) && CINV_SLICE(&self->Storage) && CINV_CELL(&self->Storage))
 __CPROVER_ensures(g_hits == (GHOST_VALID ? 1 : 0))
 //@end
-//@harness h_Vertex4_compute enforce=Vertex4_compute replace=MC4_fill props=C15 min_obl=10 reach=1 timeout=120
+//@harness h_Vertex4_compute enforce=Vertex4_compute replace=MC4_fill props=C15 min_obl=790 reach=1 timeout=120
 void h_Vertex4_compute(void)
 {
   struct Vertex4 *v; long N;
@@ -369,7 +382,7 @@ __CPROVER_loop_invariant(-NumberOfMatsubaras <= MatsubaraNum && MatsubaraNum <= 
 __CPROVER_loop_invariant((G1_VALID && MatsubaraNum + NumberOfMatsubaras > g_i) ? (g_hits == 1 && C_SAMEBITS(self->Values.gcell, g_expect)) : g_hits == 0)
 __CPROVER_decreases(NumberOfMatsubaras - MatsubaraNum)
 //@end
-//@harness h_MC1_fill enforce=MC1_fill props=C15,C17 min_obl=10 reach=3 timeout=120 defs=-DMON_FILL
+//@harness h_MC1_fill enforce=MC1_fill props=C15 min_obl=250 reach=3 timeout=120 defs=-DMON_FILL
 void h_MC1_fill(void)
 {
   struct MC1 *c; long N;
@@ -391,7 +404,7 @@ __CPROVER_ensures((IN1(g_N, MatsubaraNumber) && g_i == MatsubaraNumber + g_N) ==
 __CPROVER_ensures(!IN1(g_N, MatsubaraNumber) ==> (g_calls == 1 && g_a1 == MatsubaraNumber))
 __CPROVER_ensures((!IN1(g_N, MatsubaraNumber) || g_i == MatsubaraNumber + g_N) ==> C_SAME(__CPROVER_return_value, src1_uf(MatsubaraNumber)))
 //@end
-//@harness h_MC1_call enforce=MC1_call props=C15,C17 min_obl=10 reach=4 timeout=120
+//@harness h_MC1_call enforce=MC1_call props=C15 min_obl=145 reach=5 timeout=120
 void h_MC1_call(void)
 {
   struct MC1 *c; long n;
@@ -400,3 +413,23 @@ void h_MC1_call(void)
   if (g_i == n + g_N) REACH("ghost_cell_read");
   REACH("exit");
 }
+
+/* ======================= MUTATION RECORD (scratch copy of /repo, one textual mutation each; all killed) =======
+ * MatsubaraContainer4::fill      (h_MC4_fill)
+ *   offset `(BosonicIndex < 0 ? ...` -> `<= 0`            : Vertex4_value_mon.assertion "fill evaluates the source only at triples of the window", MC4_fill.loop_invariant_step
+ *   store  `Values[V](Nu,Nup) =` -> `(Nup,Nu)`            : MC4_fill.loop_invariant_step (innermost loop: ghost cell does not hold value(slot_triple))
+ *   outer loop bound `<= 4N-2` -> `< 4N-2`                : MC4_fill.postcondition.3 / .4 (shape of the last slice, exactly-once)
+ * MatsubaraContainer4::operator() (h_MC4_call)
+ *   slice test `<= 2*(2N-1)` -> `<`                       : MC4_call.postcondition.1/.2
+ *   `NuIndexM = MatsubaraNumber1 - ...` -> `MatsubaraNumber2`: MC4_call.postcondition.2/.4
+ *   miss path `value(n1,n2,n3)` -> `value(n2,n1,n3)`      : MC4_call.postcondition.3/.4
+ *   `BosonicIndexV = n2+n1+2N` -> `+1`                    : MC4_call.postcondition.1-4, MC4_call.overflow
+ * Vertex4::value (h_Vertex4_value): G13->G14 in the first term; `Value -=` -> `+=`; `if(n2==n3)` -> `if(n1==n2)`;
+ *   `G24(n2)` -> `G24(n1)`; factor beta dropped           : Vertex4_value.postcondition.1 (each)
+ * Vertex4::operator() (h_Vertex4_call): `Storage(n1,n2,n3)` -> `Storage(n1,n3,n2)` : Vertex4_call.postcondition.1/.2, MC4_call.precondition
+ * Vertex4::compute (h_Vertex4_compute): `fill(this,N)` -> `fill(this,N+1)`          : MC4_fill.precondition, Vertex4_compute.postcondition.1
+ * MatsubaraContainer1::operator() (h_MC1_call): `n < N` -> `n <= N` : MC1_call.postcondition.1/.3/.4, CVec_call.assertion;
+ *   `Values(N+n)` -> `Values(N-n)`                        : MC1_call.postcondition.2/.4, CVec_call.assertion
+ * MatsubaraContainer1::fill (h_MC1_fill): `resize(2N)` -> `resize(2N-1)` : CVec_resize/CVec_call assertions, MC1_fill.postcondition.1;
+ *   loop bound `< N` -> `< N-1`                           : MC1_fill.postcondition.2
+ */
